@@ -858,14 +858,41 @@ theorem printObj_head (L : Leaf) (hL : LeafLaws L) (o : Obj) (h : ObjOK L o) :
         rw [e]; exact getLast?_append_singleton _ _
       rw [this] at hc; cases hc; decide
 
+/-- The scan of a printed (`%q`) ID stops at its closing quote, whatever follows. -/
+def QuoteScans (L : Leaf) (id : Bytes) : Prop :=
+  ∀ qb, L.quote id = dq :: (qb ++ [dq]) → ∀ rest, scanQuoted (qb ++ dq :: rest) = qb.length
+
+theorem printPred_parts (L : Leaf) (hL : LeafLaws2 L) (p : Pred) :
+    ∃ qb A, L.quote p.id = dq :: (qb ++ [dq]) ∧ printPred L p = dq :: (qb ++ dq :: (A ++ [rb])) ∧ noSpace (dq :: A) := by
+  obtain ⟨b, hq⟩ := hL.quote_shape p.id
+  cases p with
+  | imm i =>
+    simp only [Pred.id] at hq
+    refine ⟨b, [64, 91], hq, by simp [printPred, hq], ?_⟩
+    intro c hc
+    simp only [List.mem_cons, List.mem_nil_iff, or_false] at hc
+    rcases hc with rfl | rfl | rfl <;> decide
+  | tmp i t =>
+    simp only [Pred.id] at hq
+    have hts := hL.time_noSpace t
+    refine ⟨b, [64, 91] ++ L.fmtTime t, hq, by simp [printPred, hq], ?_⟩
+    intro c hc
+    simp only [List.mem_cons, List.mem_append, List.mem_nil_iff, or_false] at hc
+    rcases hc with rfl | (rfl | rfl) | hc
+    · decide
+    · decide
+    · decide
+    · exact hts c hc
+
+
 theorem parseTriple_printTriple (L : Leaf) (hL : LeafLaws2 L) (t : Triple)
-    (hs : NodeOK t.s) (hsty : noSpace t.s.ty) (hsid : noSpace t.s.id) (hp : noSpace t.p.id) (hpo : PredOK L t.p) (ho : ObjOK L t.o) :
+    (hs : NodeOK t.s) (hsty : noSpace t.s.ty) (hsid : noSpace t.s.id) (hq : QuoteScans L t.p.id) (hpo : PredOK L t.p) (ho : ObjOK L t.o) :
     parseTriple L (printTriple L t) = some t := by
   obtain ⟨s, p, o⟩ := t
-  simp only at hs hsty hsid hp hpo ho
-  obtain ⟨pb, hP, hPns⟩ := printPred_shape L hL p hp
+  simp only at hs hsty hsid hq hpo ho
+  obtain ⟨qb, A, hQ, hP, hAns⟩ := printPred_parts L hL p
+  have hscan := hq qb hQ
   obtain ⟨oh, orest, hO, hohn, hohs, holast⟩ := printObj_head L hL.toLeafLaws o ho
-  -- the subject: N0 ++ [gt], with no white space in N0, starting with '/'
   have hty := hs.ty
   have hhead : s.ty.head? = some slash := by
     simp only [validType, Bool.and_eq_true, beq_iff_eq] at hty
@@ -879,14 +906,16 @@ theorem parseTriple_printTriple (L : Leaf) (hL : LeafLaws2 L) (t : Triple)
     · exact hsty x hx
     · decide
     · exact hsid x hx
+  -- the printed predicate without its first quote and its last bracket
+  let pb := qb ++ dq :: A
+  have hP' : printPred L p = dq :: (pb ++ [rb]) := by rw [hP]; simp [pb]
   have hraw : printTriple L ⟨s, p, o⟩ = N0 ++ gt :: ([tab] ++ dq :: (pb ++ rb :: ([tab] ++ oh :: orest))) := by
-    simp only [printTriple, hN, hP, hO]
+    simp only [printTriple, hN, hP', hO]
     simp
   have hN0head : N0.head? = some slash := by
     cases hty' : s.ty with
     | nil => rw [hty'] at hhead; simp at hhead
     | cons c r => rw [hty'] at hhead; simp only [N0, hty', List.cons_append, List.head?_cons] at hhead ⊢; exact hhead
-  -- trimming changes nothing
   have htrim : trim (N0 ++ gt :: ([tab] ++ dq :: (pb ++ rb :: ([tab] ++ oh :: orest)))) =
       N0 ++ gt :: ([tab] ++ dq :: (pb ++ rb :: ([tab] ++ oh :: orest))) := by
     apply trim_id
@@ -907,52 +936,67 @@ theorem parseTriple_printTriple (L : Leaf) (hL : LeafLaws2 L) (t : Triple)
         | cons x xs => simp
       rw [e] at hc
       exact holast c hc
-  -- first split: the end of the subject
   have hsplit1 := findSplit_first gt dq [dq] N0 [tab] (pb ++ rb :: ([tab] ++ oh :: orest)) 0 hN0ns (by decide)
     (by intro x hx; simp only [List.mem_singleton] at hx; subst hx; decide) (by simp) (by decide) (by decide)
-  -- second split: the end of the predicate
-  have hsplit2 := findSplit_first rb oh [slash, dq] (dq :: pb) [tab] orest 0 hPns (by decide)
+  -- second split: searched from the closing quote of the ID on
+  have hsplit2 := findSplit_first rb oh [slash, dq] (dq :: A) [tab] orest 0 hAns (by decide)
     (by intro x hx; simp only [List.mem_singleton] at hx; subst hx; decide) (by simp) hohs hohn
   unfold parseTriple parseTripleWith
   rw [hraw]
   simp only [htrim]
-  have e1 : N0 ++ gt :: ([tab] ++ dq :: (pb ++ rb :: ([tab] ++ oh :: orest))) =
-      N0 ++ gt :: ([tab] ++ dq :: (pb ++ rb :: ([tab] ++ oh :: orest))) := rfl
   rw [hsplit1]
   simp only [Nat.zero_add, List.length_singleton]
-  -- what is left after the subject and its separator
-  have hdrop1 : (N0 ++ gt :: ([tab] ++ dq :: (pb ++ rb :: ([tab] ++ oh :: orest)))).drop (N0.length + 1 + 1 + 1 - 1) =
-      (dq :: pb) ++ rb :: ([tab] ++ oh :: orest) := by
-    have : N0.length + 1 + 1 + 1 - 1 = (N0 ++ [gt, tab]).length := by simp
+  -- after the subject, its separator and the opening quote: the ID's body, then its closing quote
+  have hdropQ : (N0 ++ gt :: ([tab] ++ dq :: (pb ++ rb :: ([tab] ++ oh :: orest)))).drop (N0.length + 1 + 1 + 1 - 1 + 1) =
+      qb ++ dq :: (A ++ rb :: ([tab] ++ oh :: orest)) := by
+    have : N0.length + 1 + 1 + 1 - 1 + 1 = (N0 ++ [gt, tab, dq]).length := by simp
     rw [this]
-    have e : N0 ++ gt :: ([tab] ++ dq :: (pb ++ rb :: ([tab] ++ oh :: orest))) = (N0 ++ [gt, tab]) ++ ((dq :: pb) ++ rb :: ([tab] ++ oh :: orest)) := by simp
+    have e : N0 ++ gt :: ([tab] ++ dq :: (pb ++ rb :: ([tab] ++ oh :: orest))) = (N0 ++ [gt, tab, dq]) ++ (qb ++ dq :: (A ++ rb :: ([tab] ++ oh :: orest))) := by
+      simp [pb]
     rw [e, drop_left']
-  rw [hdrop1, hsplit2]
+  rw [hdropQ, hscan]
+  have hdropE : (N0 ++ gt :: ([tab] ++ dq :: (pb ++ rb :: ([tab] ++ oh :: orest)))).drop (N0.length + 1 + 1 + 1 - 1 + 1 + qb.length) =
+      (dq :: A) ++ rb :: ([tab] ++ oh :: orest) := by
+    have : N0.length + 1 + 1 + 1 - 1 + 1 + qb.length = (N0 ++ [gt, tab, dq] ++ qb).length := by simp; omega
+    rw [this]
+    have e : N0 ++ gt :: ([tab] ++ dq :: (pb ++ rb :: ([tab] ++ oh :: orest))) = (N0 ++ [gt, tab, dq] ++ qb) ++ ((dq :: A) ++ rb :: ([tab] ++ oh :: orest)) := by
+      simp [pb]
+    rw [e, drop_left']
+  rw [hdropE, hsplit2]
   simp only [Nat.zero_add, List.length_singleton]
   have hss : (N0 ++ gt :: ([tab] ++ dq :: (pb ++ rb :: ([tab] ++ oh :: orest)))).take (N0.length + 1) = printNode s := by
     rw [hN]
     have e : N0 ++ gt :: ([tab] ++ dq :: (pb ++ rb :: ([tab] ++ oh :: orest))) = (N0 ++ [gt]) ++ ([tab] ++ dq :: (pb ++ rb :: ([tab] ++ oh :: orest))) := by simp
     have hl : N0.length + 1 = (N0 ++ [gt]).length := by simp
     rw [e, hl, take_left']
-  have hsp : ((dq :: pb) ++ rb :: ([tab] ++ oh :: orest)).take ((dq :: pb).length + 1) = printPred L p := by
-    rw [hP]
+  have hdropP : (N0 ++ gt :: ([tab] ++ dq :: (pb ++ rb :: ([tab] ++ oh :: orest)))).drop (N0.length + 1 + 1 + 1 - 1) =
+      (dq :: pb) ++ rb :: ([tab] ++ oh :: orest) := by
+    have : N0.length + 1 + 1 + 1 - 1 = (N0 ++ [gt, tab]).length := by simp
+    rw [this]
+    have e : N0 ++ gt :: ([tab] ++ dq :: (pb ++ rb :: ([tab] ++ oh :: orest))) = (N0 ++ [gt, tab]) ++ ((dq :: pb) ++ rb :: ([tab] ++ oh :: orest)) := by simp
+    rw [e, drop_left']
+  have hsp : ((dq :: pb) ++ rb :: ([tab] ++ oh :: orest)).take
+      (N0.length + 1 + 1 + 1 - 1 + 1 + qb.length - (N0.length + 1 + 1 + 1 - 1) + (dq :: A).length + 1) = printPred L p := by
+    rw [hP']
     have e : (dq :: pb) ++ rb :: ([tab] ++ oh :: orest) = ((dq :: pb) ++ [rb]) ++ ([tab] ++ oh :: orest) := by simp
-    have hl : (dq :: pb).length + 1 = ((dq :: pb) ++ [rb]).length := by simp
+    have hl : N0.length + 1 + 1 + 1 - 1 + 1 + qb.length - (N0.length + 1 + 1 + 1 - 1) + (dq :: A).length + 1 = ((dq :: pb) ++ [rb]).length := by
+      simp [pb]; omega
     rw [e, hl, take_left']
     simp
   have hso : (N0 ++ gt :: ([tab] ++ dq :: (pb ++ rb :: ([tab] ++ oh :: orest)))).drop
-      (N0.length + 1 + 1 + 1 - 1 + ((dq :: pb).length + 1 + 1 + 1) - 1) = printObj L o := by
+      (N0.length + 1 + 1 + 1 - 1 + 1 + qb.length + ((dq :: A).length + 1 + 1 + 1) - 1) = printObj L o := by
     rw [hO]
-    have hl : N0.length + 1 + 1 + 1 - 1 + ((dq :: pb).length + 1 + 1 + 1) - 1 = (N0 ++ [gt, tab] ++ (dq :: pb) ++ [rb, tab]).length := by
-      simp; omega
+    have hl : N0.length + 1 + 1 + 1 - 1 + 1 + qb.length + ((dq :: A).length + 1 + 1 + 1) - 1 = (N0 ++ [gt, tab] ++ (dq :: pb) ++ [rb, tab]).length := by
+      simp [pb]; omega
     have e : N0 ++ gt :: ([tab] ++ dq :: (pb ++ rb :: ([tab] ++ oh :: orest))) = (N0 ++ [gt, tab] ++ (dq :: pb) ++ [rb, tab]) ++ (oh :: orest) := by simp
     rw [hl, e, drop_left']
-  rw [hss, hsp, hso]
+  rw [hss, hdropP, hsp, hso]
   have r1 := parseNode_printNode s hs
   have r2 := parsePred_printPred L hL.toLeafLaws p hpo
   have r3 := parseObject_printObj L hL.toLeafLaws o ho
   unfold parseObject at r3
   simp only [r1, r2, r3]
+
 
 /-! ### Graphs: WriteGraph then ReadIntoGraph -/
 
